@@ -45,9 +45,9 @@ def tla_op(op):
     return '[op |-> "evict", keys |-> %s, conc |-> %s]' % (tla_set(op["keys"]), "TRUE" if op.get("conc") else "FALSE")
 
 
-def tla_case(nodes, c):
-    return "[bat |-> %s, pan |-> %s, par |-> %d, plan |-> %s]" % (
-        tla_bat(nodes, c["bat"]), tla_set(c["pan"]), c["par"], tla_seq(c["plan"], tla_op))
+def tla_case(nodes, c, cid):
+    return "[id |-> %d, bat |-> %s, pan |-> %s, par |-> %d, plan |-> %s]" % (
+        cid, tla_bat(nodes, c["bat"]), tla_set(c["pan"]), c["par"], tla_seq(c["plan"], tla_op))
 
 
 def runop(*roots):
@@ -123,22 +123,24 @@ SHAPES3 = {
 }
 
 
-def write_mc(wd, name, nodes, cases, fix=FIXED, props=True, liveness=False, only_init=False, stale=False):
+def write_mc(wd, name, nodes, cases, fix=FIXED, props=True, liveness=False, only_init=False, sim=False):
     """Generate MCIncExecGen_<name>.tla/.cfg in wd; returns (module, cfg)."""
     mod = "MCIncExecGen_" + name
     with open(os.path.join(wd, mod + ".tla"), "w") as fh:
         fh.write("---- MODULE %s ----\nEXTENDS MCIncExec\n" % mod)
         fh.write("GenOrd == %s\n" % tla_seq(nodes))
         fh.write("GenFix == %s\n" % fix)
-        fh.write("GenCases == {\n  " + ",\n  ".join(tla_case(nodes, c) for c in cases) + "\n}\n====\n")
+        fh.write("GenCases == {\n  " + ",\n  ".join(tla_case(nodes, c, i + 1) for i, c in enumerate(cases)) + "\n}\n====\n")
     with open(os.path.join(wd, mod + ".cfg"), "w") as fh:
-        fh.write("SPECIFICATION %s\n" % ("FairSpec" if liveness else "Spec"))
+        fh.write("SPECIFICATION %s\n" % ("SimSpec" if sim else "FairSpec" if liveness else "Spec"))
         fh.write("CONSTANTS\n  Nodes = %s\n  NodeOrd <- GenOrd\n  Cases <- GenCases\n  Fix <- GenFix\n  Stale = FALSE\n"
                  % tla_set(nodes))
         if only_init:
             fh.write("CONSTRAINT OnlyInit\nINVARIANTS Export\nCHECK_DEADLOCK FALSE\n")
         else:
-            fh.write("INVARIANTS Export %s\n" % (INVARIANTS if props else "TypeOK"))
+            fh.write("INVARIANTS %s%s\n" % ("" if sim else "Export ", INVARIANTS if props else "TypeOK"))
+            if sim:
+                fh.write("CHECK_DEADLOCK FALSE\n")
             if liveness:
                 fh.write("PROPERTIES Terminates\n")
     return mod, mod + ".cfg"
@@ -434,7 +436,7 @@ def families(pid, tier, rng):
         else:
             mc.append(("c33seq", NODES3, fam_c33_seq(dag3, NODES3, (1, 2), ["one"], base), True))
             mc.append(("c33par3", NODES3, fam_c33_seq(shapes(["diamond", "chain", "fanin", "fanout"]), NODES3, (3,), ["one"], base), True))
-            mc.append(("c33rich", NODES3, fam_c33_seq(shapes(["diamond", "chain", "fanin", "fanout"]), NODES3, (1, 2), ["one", "rev"],
+            mc.append(("c33rich", NODES3, fam_c33_seq(shapes(["diamond", "chain", "fanin", "fanout"]), NODES3, (1, 2), ["one"],
                                                     c33_plans(NODES3, True)[4:]), True))
             ro.append(("c33all", NODES3, fam_c33_seq(dag3, NODES3, (1, 2, 3), ["one", "rev", "single"], c33_plans(NODES3, True))))
             dag4 = [g for g in digraphs(NODES4, loops=False) if is_dag(g)]
@@ -453,10 +455,10 @@ def families(pid, tier, rng):
         else:
             sparse = [g for g in all3 if nedges(g) <= 4]
             mc.append(("c34single1", NODES3, fam_c34(sparse + canon, NODES3, (1,), ["one"], 0, [NODES3]), True))
-            mc.append(("c34single2", NODES3, fam_c34(canon, NODES3, (2,), ["one"], 0, [NODES3]), True))
+            mc.append(("c34single2", NODES3, fam_c34(canon + [g for g in all3 if nedges(g) <= 2], NODES3, (2,), ["one"], 0, [NODES3]), True))
             mc.append(("c34single3", NODES3, fam_c34(shapes(["chain", "fanin", "2cycle", "3cycle", "selfloop-tail"]), NODES3, (3,), ["one"], 0, [NODES3]), True))
             mc.append(("c34panic1", NODES3, fam_c34([g for g in all3 if nedges(g) <= 3], NODES3, (1,), ["one"], 1, [NODES3]), True))
-            mc.append(("c34panic2", NODES3, fam_c34(shapes(["chain", "fanin"]), NODES3, (2,), ["one"], 1, [NODES3]), True))
+            mc.append(("c34panic2", NODES3, fam_c34(shapes(["chain", "fanin", "fanout", "selfloop-tail"]), NODES3, (2,), ["one"], 1, [NODES3]), True))
             ro.append(("c34all", NODES3, fam_c34(all3, NODES3, (1, 2, 3), ["one", "rev", "single"], 2, all_roots(NODES3)[:3])))
             g4 = sample_graphs4(rng, 150)
             ro.append(("c34n4", NODES4, fam_c34(g4, NODES4, (1, 2, 3), ["one", "single"], 1, [NODES4, list(reversed(NODES4))])))
@@ -577,17 +579,23 @@ def simulate_4(wd, pid, rng, acc):
     """4-node graphs: random behaviours of IncExec (tlc -simulate, seeded) with every invariant checked."""
     if pid == "C33":
         dag4 = [g for g in digraphs(NODES4, loops=False) if is_dag(g)]
-        cases = fam_c33_seq(rng.sample(dag4, 40), NODES4, (1, 2, 3), ["one", "single"], c33_plans(NODES4, True))
+        cases = fam_c33_seq(rng.sample(dag4, min(12, len(dag4))), NODES4, (1, 2, 3), ["one"], c33_plans(NODES4, True))
     else:
-        cases = fam_c34(sample_graphs4(rng, 80), NODES4, (1, 2, 3), ["one", "single"], 1, [NODES4])
+        cases = fam_c34(sample_graphs4(rng, 40), NODES4, (1, 2, 3), ["one"], 1, [NODES4])
     cases = dedup(cases)
-    mod, cfg = write_mc(wd, "sim4", NODES4, cases, liveness=False)
-    num = 4000
-    r = vf.tlc(mod, cfg, wd, workers=1, simulate=num, depth=400, tseed=vf.seed(), timeout=900, case_sink=lambda o: None)
+    mod, cfg = write_mc(wd, "sim4", NODES4, cases, liveness=False, sim=True)
+    num = 1500
+    r = vf.tlc(mod, cfg, wd, workers=1, simulate=num, depth=600, tseed=vf.seed(), timeout=900)
     if r.violated:
         raise vf.MachineryError("spec-level (simulation, 4 nodes): %s violated; see %s" % (r.violated, r.stdout_path))
-    acc.trans += r.generated
-    return {"cases": len(cases), "behaviours": num, "states_generated": r.generated}
+    gen = 0
+    for line in open(r.stdout_path):
+        if line.startswith("The number of states generated:"):
+            gen = int(line.split(":")[1])
+    if gen == 0:
+        raise vf.MachineryError("simulation generated no states; see " + r.stdout_path)
+    acc.trans += gen
+    return {"cases": len(cases), "behaviours": num, "states_generated": gen}
 
 
 def model_selftest(wd):
